@@ -176,6 +176,8 @@ fn generate_all(rng: &mut Rng, tier: Tier, emit: &mut dyn FnMut(String)) {
             *rng.pick(&[0u64, 3, 10, 20, 20, 40, 80])
         ));
     }
+    // paged executions (c18_page.rs); generated last, so the cases of the other kinds stay what they were
+    crate::c18_page::generate(rng, tier, emit);
 }
 
 /// warnings word: `-` without_warnings, `d` new(), `<thr_us>/<ivl_ns>` | `<thr_us>/max` with_warning_times
@@ -342,6 +344,8 @@ fn check_strict(vs: &[i64], what: &str, ctx: &mut Ctx) {
 pub fn run(case: &str, ctx: &mut Ctx) -> String {
     let w: Vec<&str> = case.split_whitespace().collect();
     match w[0] {
+        // paged executions on one hooked connection (c18_page.rs)
+        "page" => crate::c18_page::run(&w, ctx),
         "seq" => {
             let calls: usize = w[1].parse().unwrap();
             let script = parse_script(w[2]);
